@@ -14,6 +14,7 @@ import (
 	"time"
 
 	ocr2keepersv3 "github.com/smartcontractkit/chainlink-automation/pkg/v3"
+	"github.com/smartcontractkit/chainlink-automation/pkg/v3/flows"
 	"github.com/smartcontractkit/chainlink-automation/pkg/v3/plugin/hooks"
 	"github.com/smartcontractkit/chainlink-automation/pkg/v3/postprocessors"
 	"github.com/smartcontractkit/chainlink-automation/pkg/v3/stores"
@@ -41,12 +42,19 @@ import (
 // driver uses for an exact, bounded linearizability search against the model.
 
 type c10Op struct {
-	K   string    `json:"k"`             // add | padd | rm | hook | view | burst
-	Dt  int64     `json:"dt"`            // virtual ns slept before the operation (main goroutine only)
-	Rs  []int     `json:"rs,omitempty"`  // add / padd / hook: indices into Input.Res
-	Ids []string  `json:"ids,omitempty"` // rm
-	Y   bool      `json:"y,omitempty"`   // burst member: yield the processor before the call
-	Th  [][]c10Op `json:"th,omitempty"`  // burst: one list per goroutine
+	K  string `json:"k"`            // add | padd | flow | rm | hook | view | burst
+	Dt int64  `json:"dt"`           // virtual ns slept before the operation (main goroutine only)
+	Rs []int  `json:"rs,omitempty"` // add / padd / flow / hook: indices into Input.Res
+	// padd: the context handed to PostProcess: "" live, "done" cancelled before the call, "expired" deadline
+	// already passed, "cancel" cancelled right after the N-th Add of this batch reached the store
+	Ctx string `json:"ctx,omitempty"`
+	N   int    `json:"n,omitempty"`
+	// flow: Observer.Process (ObservationProcessLimit) -> runner answering after Delay virtual ns -> combined
+	// post-processor{eligible} -> store; main sequence only (the call takes Delay ns of virtual time)
+	Delay int64     `json:"delay,omitempty"`
+	Ids   []string  `json:"ids,omitempty"` // rm
+	Y     bool      `json:"y,omitempty"`   // burst member: yield the processor before the call
+	Th    [][]c10Op `json:"th,omitempty"`  // burst: one list per goroutine
 }
 
 type c10Input struct {
@@ -132,7 +140,28 @@ func (e *c10Env) exec(op c10Op) *c10View {
 	case "add":
 		e.store.Add(e.pick(op.Rs)...)
 	case "padd":
-		_ = e.pp.PostProcess(context.Background(), e.pick(op.Rs), nil)
+		ctx, cancel := context.WithCancel(context.Background())
+		pp := e.pp
+		switch op.Ctx {
+		case "done":
+			cancel()
+		case "expired":
+			cancel()
+			ctx, cancel = context.WithDeadline(context.Background(), time.Now().Add(-time.Nanosecond))
+		case "cancel":
+			pp = postprocessors.NewEligiblePostProcessor(&c10CancellingAdder{inner: e.store, cancel: cancel, after: int32(op.N)}, quietLogger)
+		}
+		_ = pp.PostProcess(ctx, e.pick(op.Rs), nil)
+		cancel()
+	case "flow":
+		rs := e.pick(op.Rs)
+		ps := make([]ocr2keepers.UpkeepPayload, len(rs))
+		for i, r := range rs {
+			ps[i] = ocr2keepers.UpkeepPayload{UpkeepID: r.UpkeepID, Trigger: r.Trigger, WorkID: r.WorkID}
+		}
+		obs := ocr2keepersv3.NewRunnableObserver(nil, postprocessors.NewCombinedPostprocessor(e.pp),
+			c10SlowRunner{delay: time.Duration(op.Delay), results: rs}, flows.ObservationProcessLimit, quietLogger)
+		_ = obs.Process(context.Background(), c10Tick{ps})
 	case "rm":
 		e.store.Remove(op.Ids...)
 	case "hook":
@@ -144,6 +173,43 @@ func (e *c10Env) exec(op c10Op) *c10View {
 		panic("c10: unknown op " + op.K)
 	}
 	return nil
+}
+
+// c10CancellingAdder forwards to the store and ends the context of the pipeline run right after the
+// `after`-th Add of the batch (ticker closed / process limit hit between two results).
+type c10CancellingAdder struct {
+	inner interface {
+		Add(...ocr2keepers.CheckResult)
+	}
+	cancel context.CancelFunc
+	after  int32
+	n      atomic.Int32
+}
+
+func (a *c10CancellingAdder) Add(rs ...ocr2keepers.CheckResult) {
+	a.inner.Add(rs...)
+	if a.n.Add(1) == a.after {
+		a.cancel()
+	}
+}
+
+type c10Tick struct{ payloads []ocr2keepers.UpkeepPayload }
+
+func (t c10Tick) Value(context.Context) ([]ocr2keepers.UpkeepPayload, error) { return t.payloads, nil }
+
+// c10SlowRunner: a check pipeline whose call does not abort on ctx and answers after `delay` (virtual) —
+// possibly after the observer's process limit.  A collector tick due at the instant it answers runs first.
+type c10SlowRunner struct {
+	delay   time.Duration
+	results []ocr2keepers.CheckResult
+}
+
+func (r c10SlowRunner) CheckUpkeeps(context.Context, ...ocr2keepers.UpkeepPayload) ([]ocr2keepers.CheckResult, error) {
+	if r.delay > 0 {
+		time.Sleep(r.delay)
+		synctest.Wait()
+	}
+	return r.results, nil
 }
 
 // c10Run executes the history inside the current bubble.
@@ -549,7 +615,7 @@ func (p *c10Pool) relTo(r *Rng, wid string, blk uint64, rel int) int {
 	return c[r.Intn(len(c))]
 }
 
-func c10GenOp(r *Rng, p *c10Pool, sh *c10Shadow, focus string) c10Op {
+func c10GenOp(r *Rng, p *c10Pool, sh *c10Shadow, focus string, seq bool) c10Op {
 	wid := p.wids[r.Intn(len(p.wids))]
 	if focus != "" && r.Chance(70) {
 		wid = focus
@@ -577,11 +643,25 @@ func c10GenOp(r *Rng, p *c10Pool, sh *c10Shadow, focus string) c10Op {
 		return op
 	case x < 43:
 		op := c10Op{K: "padd", Rs: []int{pickAdd()}}
+		if seq && r.Chance(25) {
+			// the whole observer pipeline; the check answers around the process limit
+			lim := int64(flows.ObservationProcessLimit)
+			op.K = "flow"
+			op.Delay = []int64{0, 1, lim - 1, lim, lim + 1, lim + int64(r.Range(1, 9))*int64(time.Second)}[r.Intn(6)]
+		} else if r.Chance(55) {
+			op.Ctx = []string{"done", "expired", "cancel"}[r.Intn(3)]
+		}
+		for i, n := 0, r.Intn(4); i < n; i++ { // a batch over several work ids
+			wid = p.wids[r.Intn(len(p.wids))]
+			op.Rs = append(op.Rs, pickAdd())
+		}
 		if len(p.bad) > 0 && r.Chance(60) {
 			op.Rs = append(op.Rs, p.bad[r.Intn(len(p.bad))])
-			if r.Bool() {
-				op.Rs[0], op.Rs[1] = op.Rs[1], op.Rs[0]
-			}
+			j := r.Intn(len(op.Rs))
+			op.Rs[j], op.Rs[len(op.Rs)-1] = op.Rs[len(op.Rs)-1], op.Rs[j]
+		}
+		if op.Ctx == "cancel" {
+			op.N = r.Range(1, len(op.Rs))
 		}
 		return op
 	case x < 53:
@@ -601,10 +681,13 @@ func c10GenOp(r *Rng, p *c10Pool, sh *c10Shadow, focus string) c10Op {
 
 func (sh *c10Shadow) apply(p *c10Pool, op c10Op) {
 	switch op.K {
-	case "add", "padd":
+	case "add", "padd", "flow":
+		if op.K == "flow" {
+			sh.advance(op.Delay)
+		}
 		for _, i := range op.Rs {
 			j := p.res[i]
-			if op.K == "padd" && (j.PES != 0 || !j.Eligible) {
+			if op.K != "add" && (j.PES != 0 || !j.Eligible) {
 				continue
 			}
 			sh.add(j.WID, p.blkOf[i])
@@ -715,7 +798,7 @@ func c10GenSeq(r *Rng, ttl, gci int64, em *Emitter) c10Input {
 		if f != "" {
 			focus = f
 		}
-		op := c10GenOp(r, p, sh, focus)
+		op := c10GenOp(r, p, sh, focus, true)
 		op.Dt = dt
 		sh.advance(dt)
 		sh.apply(p, op)
@@ -747,7 +830,7 @@ func c10GenConc(r *Rng, ttl, gci int64, em *Emitter) c10Input {
 	}
 	for i, n := 0, r.Range(0, 8); i < n; i++ {
 		dt, _ := c10GenDt(r, sh, em)
-		op := c10GenOp(r, p, sh, "")
+		op := c10GenOp(r, p, sh, "", true)
 		op.Dt = dt
 		push(op)
 	}
@@ -760,7 +843,7 @@ func c10GenConc(r *Rng, ttl, gci int64, em *Emitter) c10Input {
 		for i := 0; i < g; i++ {
 			var ops []c10Op
 			for j, m := 0, r.Range(3, 6); j < m; j++ {
-				op := c10GenOp(r, p, sh, "")
+				op := c10GenOp(r, p, sh, "", false)
 				op.Y = r.Chance(30)
 				ops = append(ops, op)
 				calls++
@@ -773,13 +856,77 @@ func c10GenConc(r *Rng, ttl, gci int64, em *Emitter) c10Input {
 		push(c10Op{K: "view"})
 		if r.Chance(50) {
 			dt, _ := c10GenDt(r, sh, em)
-			op := c10GenOp(r, p, sh, "")
+			op := c10GenOp(r, p, sh, "", true)
 			op.Dt = dt
 			push(op)
 			push(c10Op{K: "view"})
 		}
 	}
 	em.Hit(fmt.Sprintf("conc bursts=%d", nb))
+	return in
+}
+
+// c10GenVolume: n distinct work ids live at the same time (n above any plausible cap of the staging
+// area), staged in batches through Add / the post-processor (all context variants) / the observer flow,
+// with `old` earlier entries running out of TTL meanwhile; views before and after collector ticks, and
+// after a batch of removals.  Every live, unremoved result must be in every view.
+func c10GenVolume(r *Rng, ttl, gci int64, n int, em *Emitter) c10Input {
+	in := c10Input{TTL: ttl, GCI: gci, StartDt: int64(r.U64() % uint64(gci))}
+	old := r.Range(10, 60)
+	for i := 0; i < n+old; i++ {
+		in.Res = append(in.Res, toJCR(genResult(r, genUpkeepID(r, i%3 != 0), uint64(r.Range(5, 5000)))))
+	}
+	now := in.StartDt
+	push := func(op c10Op) {
+		now += op.Dt + op.Delay
+		in.Ops = append(in.Ops, op)
+	}
+	toTick := func(off int64) int64 { // ns from now to the next collector tick (+off)
+		k := (now-in.StartDt)/gci + 1
+		return in.StartDt + k*gci + off - now
+	}
+	seq := func(lo, hi int) []int {
+		out := make([]int, 0, hi-lo)
+		for i := lo; i < hi; i++ {
+			out = append(out, i)
+		}
+		return out
+	}
+	push(c10Op{K: "add", Dt: 1, Rs: seq(n, n+old)})
+	push(c10Op{K: "view", Dt: ttl - int64(r.Range(1, 25))*int64(time.Second)})
+	for lo := 0; lo < n; {
+		hi := lo + r.Range(40, 400)
+		if hi > n {
+			hi = n
+		}
+		op := c10Op{Dt: int64(r.Intn(300)) * int64(time.Millisecond), Rs: seq(lo, hi)}
+		switch x := r.Intn(10); {
+		case x < 4:
+			op.K = "add"
+		case x < 9:
+			op.K = "padd"
+			op.Ctx = []string{"", "done", "expired", "cancel"}[r.Intn(4)]
+			if op.Ctx == "cancel" {
+				op.N = r.Range(1, hi-lo)
+			}
+		default:
+			op.K = "flow"
+			op.Delay = int64(r.Intn(3)) * int64(time.Second)
+		}
+		em.Hit("volume batch=" + op.K + "/" + op.Ctx)
+		push(op)
+		lo = hi
+	}
+	push(c10Op{K: "view"})
+	push(c10Op{K: "view", Dt: toTick([]int64{0, 1}[r.Intn(2)])})
+	push(c10Op{K: "view", Dt: toTick(0)})
+	hook := c10Op{K: "hook", Dt: 5}
+	for i := 0; i < 30; i++ {
+		hook.Rs = append(hook.Rs, r.Intn(n))
+	}
+	push(hook)
+	push(c10Op{K: "view", Dt: toTick(1)})
+	em.Hit(fmt.Sprintf("volume n=%d", n/1000*1000))
 	return in
 }
 
@@ -824,6 +971,13 @@ func c10Edge(ttl, gci int64) []c10Input {
 			add(1, 2), view(0), c10Op{K: "rm", Dt: 1, Ids: []string{w, other.WorkID, w}}, view(0)),
 		// post-processor filters ineligible results; one call with the same work id thrice
 		mk(5, c10Op{K: "padd", Dt: 1, Rs: []int{5, 2, 5}}, view(0), add(1, 2, 3, 0), view(0), add(1, 0, 3, 2), view(0)),
+		// the context of the pipeline run is no reason to skip an eligible result: done before the call, deadline
+		// passed, ended after the first of three, and a check that answers one ns after the observer's process limit
+		mk(5, c10Op{K: "padd", Dt: 1, Rs: []int{0, 4}, Ctx: "done"}, view(0), c10Op{K: "hook", Dt: 1, Rs: []int{0, 4}},
+			c10Op{K: "padd", Dt: 1, Rs: []int{4, 5, 2}, Ctx: "expired"}, view(0),
+			c10Op{K: "padd", Dt: 1, Rs: []int{2, 4, 3}, Ctx: "cancel", N: 1}, view(0)),
+		mk(5, c10Op{K: "flow", Dt: 1, Rs: []int{0, 4}, Delay: int64(flows.ObservationProcessLimit) + 1}, view(0),
+			c10Op{K: "flow", Dt: gci - int64(flows.ObservationProcessLimit), Rs: []int{3}, Delay: int64(flows.ObservationProcessLimit)}, view(0)),
 		// empty calls
 		mk(0, add(0), c10Op{K: "rm"}, c10Op{K: "hook"}, c10Op{K: "padd"}, view(0)),
 		// burst on one work id
@@ -880,6 +1034,14 @@ func TestC10(t *testing.T) {
 	}
 	run("gc-race", c10Input{Kind: "gc-race", Res: []JCR{}, Ops: []c10Op{},
 		Race: &c10RaceP{IDs: 24, Adders: 8, Rounds: 25, Bubbles: tierN(40, 400), Seed: seed()}})
+	rv := NewRng(seed() + 7777)
+	vols := []int{2001, rv.Range(2002, 2600)}
+	if thorough() {
+		vols = append(vols, 2048, rv.Range(2600, 3500), rv.Range(3500, 4500), 5000)
+	}
+	for _, n := range vols {
+		run("gen-volume", c10GenVolume(rv, ttl, gci, n, em))
+	}
 	r := NewRng(seed())
 	for i, n := 0, tierN(4000, 40000); i < n; i++ {
 		run("gen", c10GenSeq(r, ttl, gci, em))
